@@ -13,6 +13,7 @@ THEOREMS = ["C13_treat_columns", "C13_treat_reference_row", "C13_treat_full_rank
             "C13_treatment_full_space", "C13_entry_bridge"]
 ASSUMPTIONS = ["rank computations of the oracle are exact (fractions.Fraction Gaussian elimination)"]
 RULE = ("exhaustive: level counts 1..12 x every reference / omitted level x {reduced, full} x {Treatment, Sum}; "
+        "one encoding object reused after coding one or two other level lists; "
         "all permutations of up to five levels passed as levels=; random designs with each factor's coding "
         "swapped among variable / C / T / S / Sum / Treatment(ref); non-trivial = every case; distinct = case")
 EXHAUSTIVE = {"quick": True, "thorough": True}
@@ -36,6 +37,18 @@ def gen(rng, tier):
                 for spans in ("reduced", "full"):
                     cases.append({"kind": "direct", "enc": enc, "ref": ref, "spans": spans, "levels": levels,
                                   "raw_levels": True})
+    # one encoding object used for several factors (C(g, s) + C(h, s) with s = Sum('b')): what it did for an
+    # earlier list of levels has no influence on a later one
+    priors = [[["a", "b", "c"], "reduced"], [["b", "c", "d", "e"], "full"], [["c", "b"], "reduced"],
+              [["a", "b", "c", "d", "e", "f"], "reduced"]]
+    for enc in ("treatment", "sum"):
+        for levels in (["b", "c", "d"], ["a", "b"], ["d", "c", "b", "a"], ["a", "b", "c", "d", "e"]):
+            for ref in [None, "b"]:
+                for spans in ("reduced", "full"):
+                    for k in (1, 2):
+                        for pr in itertools.permutations(priors, k):
+                            cases.append({"kind": "direct", "enc": enc, "ref": ref, "spans": spans,
+                                          "levels": levels, "prior": [list(x) for x in pr]})
     perms = list(itertools.permutations(["a", "b", "c", "d"][:4]))
     for k in (2, 3, 4, 5):
         lv = ["a", "b", "c", "d", "e"][:k]
@@ -56,7 +69,7 @@ def key(c):
 
 
 def describe(c, mo, obs):
-    return c["kind"] + ("/" + c.get("enc", "") if c["kind"] == "direct" else "")
+    return c["kind"] + ("/" + c.get("enc", "") + ("/reused" if c.get("prior") else "") if c["kind"] == "direct" else "")
 
 
 def model_cmd(c):
@@ -108,11 +121,22 @@ def _swap_variants(seed):
     return fr, forms
 
 
+def _mk_enc(c):
+    """the encoding object of a direct case, after it has coded the case's earlier level lists"""
+    from formulae.categorical import Sum, Treatment
+    enc = Treatment(c["ref"]) if c["enc"] == "treatment" else Sum(c["ref"])
+    for levels, spans in c.get("prior", []):
+        try:
+            (enc.code_with_intercept if spans == "full" else enc.code_without_intercept)(list(levels))
+        except Exception:  # noqa
+            pass
+    return enc
+
+
 def impl_obs(c):
     import numpy as np
-    from formulae.categorical import Sum, Treatment
     if c["kind"] == "direct":
-        enc = Treatment(c["ref"]) if c["enc"] == "treatment" else Sum(c["ref"])
+        enc = _mk_enc(c)
         try:
             cm = enc.code_with_intercept(list(c["levels"])) if c["spans"] == "full" else enc.code_without_intercept(list(c["levels"]))
         except Exception as e:  # noqa
@@ -172,7 +196,7 @@ def oracle(c):
         levels = list(c["levels"])
         n = len(levels)
         ref = c["ref"]
-        enc = Treatment(ref) if c["enc"] == "treatment" else Sum(ref)
+        enc = _mk_enc(c)
         try:
             red = enc.code_without_intercept(list(levels))
             full = enc.code_with_intercept(list(levels))
